@@ -177,6 +177,17 @@ static int cmdLin(int rounds, uint64_t seed, const char *outPath)
       iora::core::DynamicRingBuffer<Item> r(req);
       int cap0 = (int)r.capacity();
       phase(r, rng, n, cap0, nextVal, log, torn);
+      // sequential prelude to the resize: make the LIVE range wrap around the end of the storage (fill, take some, refill)
+      {
+        std::vector<OpR> fill, takeSome, refill;
+        for (int i = 0; i < cap0 + 1; ++i) fill.push_back({0, 1});
+        int k = cap0 > 1 ? 1 + (int)(rng() % (cap0 - 1)) : 1;
+        for (int i = 0; i < k; ++i) takeSome.push_back({1, 1});
+        for (int i = 0; i < k; ++i) refill.push_back({0, 1});
+        producer(r, fill, nextVal, log);
+        consumer(r, takeSome, log, torn);
+        producer(r, refill, nextVal, log);
+      }
       // quiescent resize between two concurrent phases
       int newReq = 1 + (int)(rng() % 6);
       log.push_back({g_seq.fetch_add(1), vf::Ev("Call").str("t", "P").str("op", "resize").i("v", newReq).done()});
